@@ -15,7 +15,7 @@ NONE = "```(None)```"  # the project's NoneStr
 
 SHAPES = {
     "int": [ABSENT, 0, 5, -3],
-    "float": [ABSENT, 2.5, -1e-07],
+    "float": [ABSENT, 2.5, -1e-07, 1e16],
     "str": [ABSENT, "s", "two words", "train|test", ""],
     "bool": [ABSENT, True, False],
     "Optional[int]": [ABSENT, NONE, 7, 0],
